@@ -115,6 +115,11 @@ def run(chk, prog):
             chk.anchor_missing("R3", fn)
             continue
         chk.analysed_body(lctx.body)
+        from .c03 import rollback_site
+        site = rollback_site(prog, lctx, fname)
+        if site is not None and site[1] is not None:
+            lctx = site[0]          # the rollback check lives in a helper of the loader
+            chk.analysed_body(lctx.body)
         S, info = skip_edges(lctx, fname)
         vsk = 0
         for bb, t in lctx.calls(*VERIFY, wrappers=True):
